@@ -191,6 +191,27 @@ CHECKS = {
         "units": [U("props/run", "TestInterrupt", (800, 10), (15000, 10))],
         "floors": {"quick": {"inside-run": 1500, "fate:queued": 300, "fate:dead-running": 300, "fate:dead-after-outs": 300, "fate:killed-with-error": 300, "fate:finished-unnoticed": 300, "fate:alive": 300, "fate:during-cleanup": 300, "fate:after-cleanup": 300}},
     },
+    "C06": {
+        "level": "exploration",
+        "engine": "E1",
+        "needs_bins": [],
+        "technique": "property-based testing (rapid): generated program x schedule x failure site (any job) x failure manifestation, 1-2 successive faults; fault injection through the files a failing job leaves behind; oracle = invariants at failure + differential against the reference model after restart",
+        "level_text": ("Programs of the C01 generator (<= 60 jobs) x schedules x a generated job as the failure site (split, chunk, main, join; mapped and dynamically forked calls; preflights) x "
+                       "manifestation: _errors with the text mrjob records (non-zero exit, signal, python traceback, out of memory), _assert, _outs cut off in the middle, _outs missing a "
+                       "declared output, _outs with a value of a definitely wrong JSON type (checked against the C17 reference validator), _stage_defs that is not a dictionary / has a non-list "
+                       "'chunks' / is cut off.  Oracle: the pipestance state becomes failed and never complete; GetFatalError names the failing stage and carries the error text; no job whose "
+                       "call depends on the failed call is ever handed to the job manager (C02 oracle); jobs of independent calls keep receiving the model's arguments; the lock is released when "
+                       "mrp gives up; after re-attaching without the fault only work that had not completed (for rejected outputs: the fork that produced them) is executed, the run completes and "
+                       "the final outputs equal the model's; then optionally a second fault elsewhere. Exploration."),
+        "level_note": ("Exit codes, signals and the python adapter's own error paths are what mrjob / martian_shell.py turn into _errors / _assert; exercising those processes, mrp's exit status "
+                       "and --autoretry needs the E2 engine, which is not built."),
+        "rule": ("rapid program + schedule + site + manifestation; non-trivial: the failed call has >= 1 dependent and >= 1 independent call; distinct by hash(program, history); classes: kind of "
+                 "failure, phase of the failing job, has-dependents, has-independents."),
+        "assumptions": _SEM_ASSUME,
+        "units": [U("props/run", "TestFaults", (1200, 10), (20000, 10))],
+        "floors": {"quick": {"kind:errors": 1000, "kind:assert": 500, "kind:invalid-outs": 200, "kind:missing-key": 200, "kind:wrong-type": 200, "kind:bad-stage-defs": 100,
+                             "phase:split": 300, "phase:chunk": 300, "phase:join": 300, "phase:main": 1000, "has-dependents": 800, "has-independents": 1500}},
+    },
     "C07": {
         "level": "exploration",
         "engine": "E1",
